@@ -168,6 +168,12 @@ def build():
     u.raw("}\n")
     static_shims(u, st1 + st2)
     u.raw("}\n")
+    # C12: token rule + link lemma (token.rs without the region that duplicates the prelude's dec/digit)
+    import os as _os
+    tok = open(_os.path.join(_os.path.dirname(_os.path.dirname(_os.path.abspath(__file__))), "spec", "token.rs")).read()
+    tok = re.sub(r"//@STANDALONE-BEGIN.*?//@STANDALONE-END\n", "", tok, flags=re.S)
+    u.raw(tok, "spec/token.rs")
+    u.include("spec/token_link.rs")
     u.raw("fn main() {}\n")
     u.assume("str::lines().rev(), trim, to_lowercase, is_empty, regex captures: std / regex-crate semantics as uninterpreted spec functions (shims/scanshim.rs)")
     return u
